@@ -373,6 +373,8 @@ fn worker(sh: Arc<Shared>) {
                 run_one(&sh, job.scn, job.seed, &k, &mut local);
             }
         } else if let Some(trace) = run_one(&sh, job.scn, job.seed, &job.devs, &mut local) {
+            // scenarios with uncontrollable helper threads are explored on the default schedule only
+            let trace = if sh.scns[job.scn].deterministic() { trace } else { Vec::new() };
             let cost = dev_cost(&job.devs);
             let left = sh.params.max_dev.saturating_sub(cost);
             let mut kids = Vec::new();
